@@ -211,6 +211,28 @@ def _is_expected_exception(stmt: Statement, exc_type: type[BaseException]) -> bo
     )
 
 
+def _importable_exception(exc_type: type[BaseException]) -> type[BaseException]:
+    """Return the nearest class in the MRO that the test file can refer to by name.
+
+    The rendered test refers to an exception class by its bare ``__name__`` and, for
+    non-builtin classes, imports it with ``from <module> import <name>``. That only works
+    for classes bound at the top level of their module; classes nested in another class or
+    created inside a function are not importable that way. ``pytest.raises`` accepts
+    subclasses, so the nearest importable base class is a valid (if weaker) reference.
+
+    Args:
+        exc_type: The exception type raised while re-executing a statement.
+
+    Returns:
+        ``exc_type`` itself if importable by name, else its nearest importable base class.
+    """
+    for cls in exc_type.__mro__:
+        owner = sys.modules.get(cls.__module__)
+        if owner is not None and getattr(owner, cls.__name__, None) is cls:
+            return cast("type[BaseException]", cls)
+    return BaseException
+
+
 class TestSuiteWriter:
     """Writes a suite of test cases as a single pytest-compatible Python file."""
 
@@ -323,6 +345,7 @@ class TestSuiteWriter:
             if exc_type is None:
                 body.append(stmt.node)
             elif self._no_xfail or _is_expected_exception(stmt, exc_type):
+                exc_ref = _importable_exception(exc_type)
                 wrapped = cst.With(
                     items=[
                         cst.WithItem(
@@ -331,14 +354,14 @@ class TestSuiteWriter:
                                     value=cst.Name("pytest"),
                                     attr=cst.Name("raises"),
                                 ),
-                                args=[cst.Arg(value=cst.Name(exc_type.__name__))],
+                                args=[cst.Arg(value=cst.Name(exc_ref.__name__))],
                             )
                         )
                     ],
                     body=cst.IndentedBlock(body=[stmt.node]),
                 )
                 body.append(wrapped)
-                used_exc_types.add(exc_type)
+                used_exc_types.add(exc_ref)
             else:
                 body.append(stmt.node)
                 is_failing = True
